@@ -12,9 +12,17 @@ TEXT = {
  "C11": ("Seeded interleavings of relation requests (<,<=,=,>=,>) with root-level tightening and search: a TRUE/FALSE shortcut or a shared literal must be equivalent to the requested relation under what was created (z3), and for the rest of the history every value/verdict/model is judged with the intended relation as the literal's meaning.", "3.1, 4 (C11)"),
  "C12": ("Seeded requests over the matrix relation x {c*x+k, c*(x-y)+k} x variable order x sign for IDL and RDL in random consistent states, judged like C11; bounds/distance/equates on expressions compared with the same function of the variable-level distances.", "3.1, 4 (C12)"),
  "C13": ("Seeded construction orders of eq/conj/disj/at-most-one/exactly-one (duplicates, complements, root-decided arguments, cache hits, pairwise and product encodings) followed by exhaustive sweeps of the argument space through assume: the returned literal must be equivalent (eq/conj/disj) resp. force the cardinality and exclude nothing (amo/exo).", "3.1, 4 (C13)"),
+ "C01": ("Seeded search over generated RIDDLE problems (constraints, objects, goals/facts with rules, state variables, resources) delivered as read()/solve()/pop-to-root histories under K seeded heap layouts and (thorough) the h_max/h_add x CHECK_INCONSISTENCIES x Debug/Release builds; every reported solution is evaluated with exact rational+epsilon arithmetic against the harness's own AST (top-level constraints, formula arguments, rule bodies of active goals with their sub-goals taken from the causal graph).", "3.2, 4 (C01)"),
+ "C02": ("Same histories; every negative verdict (solve()==false, unsolvable/inconsistency exception from read()) on the constraint-only fragment is cross-examined with z3 on the harness's AST (a model is a witness that the verdict is wrong); most problems are planted around a hidden assignment so that they are satisfiable by a small margin.", "3.2, 4 (C02)"),
+ "C03": ("Same histories, causal profile: from the listener-reported causal graph every atom whose flaw is active must be active (goal: activation applied, sub-goals in the plan) or unified with an active atom of the same predicate with equal arguments; the support graph (sub-goal + unification edges) must be acyclic.", "3.2, 4 (C03)"),
+ "C04": ("Same histories, state-variable profile (fixed and variable tau, zero-length atoms, equal endpoints): pairwise overlap test on exact intervals of the active atoms per instance, and the extracted timeline must list exactly the covering atoms, at most one per segment.", "3.2, 4 (C04)"),
+ "C05": ("Same histories, reusable-resource profile (capacities incl. 0, amounts at/above/below capacity, durations incl. 0): exact usage at every start pulse <= capacity; extracted timeline atoms and usage per segment recomputed.", "3.2, 4 (C05)"),
+ "C06": ("Same histories, temporal profile (facts and goals on plain Interval/Impulse predicates, state variables, resources): origin <= start <= end <= horizon, duration == end-start >= 0, origin <= at <= horizon for every active atom.", "3.2, 4 (C06)"),
+ "C17": ("Same histories, object profile (class hierarchies with constructors chaining to the super class, object fields, instances created before/after variables and across read() units, enum unions): each object/enum variable takes exactly one value inside the domain it was declared with, constructor arguments are read back from the fields, constraints through field access hold for the chosen instances.", "3.2, 4 (C17)"),
  "C14": ("Seeded object-variable histories (domains 1-5 over a shared pool, both creation forms, equalities between all pairs, assume/pop and sweeps): exactly-one, domain == not-excluded values, equality literal <=> same value, disjoint domains never equal; verdicts judged by z3.", "3.1, 4 (C14)"),
 }
 TECH = "deterministic simulation: seeded API-history + heap-layout search with reference-model oracles (z3 / Floyd-Warshall), ddmin-minimised replay files"
+TECH_PLAN = "deterministic simulation: seeded problem + read/solve-history + heap-layout (+ build configuration) search, exact reference evaluator and z3 as oracles, ddmin-minimised replay files"
 NOTE = "Trusted: z3 4.8.12 verdicts, GMP arithmetic, the harness's own meaning of each created construct; histories respect the documented API preconditions; sampling gives evidence, not proof."
 
 NA = [
@@ -31,7 +39,7 @@ def main():
         checks.append({"property_id": p, "quick_cmd": "./check %s --tier quick" % p, "thorough_cmd": "./check %s --tier thorough" % p,
                        "evidence_file": "evidence/%s.json" % p, "replay_cmd_template": "./check replay {path}", "engine": spec["engine"],
                        "level_claimed": {"category": spec["level"], "text": text, "design_ref": ref},
-                       "level_note": spec.get("level_note", NOTE), "technique": spec.get("technique", TECH)})
+                       "level_note": spec.get("level_note", NOTE), "technique": spec.get("technique", TECH_PLAN if spec["engine"] == "plan" else TECH)})
     na = list(NA)
     for i in range(1, 21):
         p = "C%02d" % i
@@ -42,7 +50,8 @@ def main():
          "hooks": {"guard": "PSTLAB_ORATIO_VERIF", "enable": "checks configure /repo with -DCMAKE_CXX_FLAGS=-DPSTLAB_ORATIO_VERIF (vlib/common.py build_repo)",
                    "baseline_off_cmd": "cmake -G Ninja -S /repo -B /verif/.build/baseline -DCMAKE_BUILD_TYPE=RelWithDebInfo >/dev/null && cmake --build /verif/.build/baseline >/dev/null && ctest --test-dir /verif/.build/baseline -j8 --timeout 900",
                    "source_commits": commits, "add_only": True},
-         "engines": [{"name": "net", "path": "sim/net", "serves_properties": [p for p in sorted(PROPS) if PROPS[p]["engine"] == "net"], "kind_free_text": "constraint network as a backtrackable store: seeded API histories, z3 + Floyd-Warshall reference"}],
+         "engines": [{"name": "plan", "path": "sim/plan", "serves_properties": [p for p in sorted(PROPS) if PROPS[p]["engine"] == "plan"], "kind_free_text": "whole planner under read/solve histories and seeded heap layouts: generated RIDDLE problems, exact evaluator + z3"},
+                     {"name": "net", "path": "sim/net", "serves_properties": [p for p in sorted(PROPS) if PROPS[p]["engine"] == "net"], "kind_free_text": "constraint network as a backtrackable store: seeded API histories, z3 + Floyd-Warshall reference"}],
          "checks": checks, "not_applicable": na,
          "notes": "known_findings.json lists fixed findings (regression replays under findings/) and open ones; tools/sensitivity.py runs checks against a changed scratch copy of /repo."}
     json.dump(m, open(os.path.join(os.path.dirname(os.path.dirname(os.path.abspath(__file__))), "MANIFEST.json"), "w"), indent=1)
